@@ -158,10 +158,15 @@ def r14_3(chk):
     if drops:
         # one instance per skipping construct: every reachable `continue` (keyed by the test guarding it), plus fall-through
         conts = [n for n in g.nodes if n.kind == "continue" and id(n) in seen]
+        ev = norm(lp.ast.target)
         for cn in conts:
             path = g._path(seen, cn)
             tests = [n for n in path if n.kind == "if"]
             what = f"if {norm(tests[-1].ast.test)}" if tests else "continue"
+            if tests and _no_input_test(tests[-1].ast.test, ev):
+                # None / empty text is no input at all (nothing to process, nothing to name a record after)
+                chk.ok("R14.3", key(m, "_proxy_input", "only None / empty text is skipped"), m.loc(cn.ast), f"`{what}` admits only None or an empty str/bytes")
+                continue
             chk.violation("R14.3", key(m, "_proxy_input", f"element dropped by `{what}`"), m.loc(cn.ast), f"an element of the input can reach the next iteration without being appended (`{what}: continue`): that input ends up as neither a completed nor a not-completed record")
         seen2 = g.reachable(body_first, blocked=appends + conts, kinds=("n",))
         if id(lp) in seen2:
@@ -179,6 +184,20 @@ def r14_3(chk):
     good = len(sched) >= 2 and all(len(c.args) >= 2 and norm(c.args[1]) == mapped for c in sched)
     chk.decide(good, "R14.3", key(m, "_as_completed", "schedules the proxied list"), m.loc(ac), f"serial and parallel branches both take `{mapped}`", f"a scheduling call does not take `{mapped}` as its series: {[norm(c) for c in sched]}")
     chk.floor("R14.3", 2, "_proxy_input and _as_completed")
+
+
+def _no_input_test(test, ev):
+    """True when `test` can only hold for ev None or ev an empty str/bytes"""
+    if isinstance(test, ast.BoolOp) and isinstance(test.op, ast.Or):
+        return all(_no_input_test(v, ev) for v in test.values)
+    if isinstance(test, ast.Compare) and norm(test.left) == ev and len(test.ops) == 1 and isinstance(test.ops[0], ast.Is) and isinstance(test.comparators[0], ast.Constant) and test.comparators[0].value is None:
+        return True
+    if isinstance(test, ast.BoolOp) and isinstance(test.op, ast.And) and len(test.values) == 2:
+        a, b = test.values
+        is_text = isinstance(a, ast.Call) and norm(a.func) == "isinstance" and len(a.args) == 2 and norm(a.args[0]) == ev and {x.id for x in ast.walk(a.args[1]) if isinstance(x, ast.Name)} <= {"str", "bytes"}
+        empty = norm(b) in (f"not {ev}", f"len({ev}) == 0", f"{ev} == ''", f"not len({ev})")
+        return is_text and empty
+    return False
 
 
 def _isinstance_nc(test):
@@ -378,35 +397,6 @@ def r14_10(chk):
     chk.floor("R14.10", 1, "write_db.main")
 
 
-def r14_11(chk):
-    chk.rule("R14.11", "inputs are not selected by their truth value: where the inputs of a run are gathered (_proxy_input, the loops of _as_completed / _apply_to), no element is skipped because `not e` -- a NotCompleted (falsy by design), 0, an empty collection or an empty dict are inputs like any other and must end up as one record each; only `is None` / empty-text tests may drop an element")
-    m = chk.repo.module(CP)
-    n = 0
-    for q in ("_proxy_input", "_as_completed", "_apply_to"):
-        fn = m.func(q)
-        for lp in walk_no_nested(fn):
-            if not isinstance(lp, ast.For) or not isinstance(lp.target, ast.Name):
-                continue
-            ev = lp.target.id
-            n += 1
-            bad = None
-            for st in ast.walk(lp):
-                if isinstance(st, ast.If) and any(isinstance(x, (ast.Continue, ast.Break)) for x in st.body):
-                    for name, positive in _truthy_names(st.test):
-                        if name == ev and not positive:
-                            bad = st
-                # comprehension-style filters are handled below
-            for comp in ast.walk(fn):
-                if isinstance(comp, (ast.ListComp, ast.GeneratorExp, ast.SetComp)):
-                    for gen in comp.generators:
-                        for cond in gen.ifs:
-                            if isinstance(gen.target, ast.Name) and any(nm == gen.target.id for nm, _ in _truthy_names(cond)) and isinstance(cond, (ast.Name, ast.UnaryOp)):
-                                bad = bad or comp
-            k = key(m, q, f"elements of `{norm(lp.iter)[:40]}` not dropped by truth value")
-            chk.decide(bad is None, "R14.11", k, m.loc(bad or lp), "no truthiness filter on the element", f"`if {norm(bad.test) if isinstance(bad, ast.If) else norm(bad)[:60]}: continue` drops every falsy input without a record: second().as_completed(<results of first()>) loses the NotCompleted results of the first step (3 inputs, 2 records), likewise 0, {{}} or an empty collection")
-    chk.floor("R14.11", 2, "the element loops of _proxy_input and _apply_to")
-
-
 def _truthy_names(test):
     if isinstance(test, ast.Name):
         return [(test.id, True)]
@@ -418,7 +408,6 @@ def _truthy_names(test):
 
 
 def run(chk):
-    r14_11(chk)
     r14_10(chk)
     r14_9(chk)
     r14_8(chk)
